@@ -53,6 +53,10 @@ func (g *registry) source() sqlgen.LiteralSource {
 			// surround the marker with ordinary and awkward text
 			pre := []string{"", "", "a ", "it''s ", "x%", "100 ", "é"}[r.Intn(7)]
 			suf := []string{"", "", " z", "_", " -- c", "/*", " 42"}[r.Intn(7)]
+			if r.Intn(25) == 0 {
+				// a long value (the normalizer treats values over 256 bytes differently)
+				suf += " " + strings.Repeat("long value ", 28)
+			}
 			val := strings.ReplaceAll(pre, "''", "'") + mk + suf
 			switch {
 			case !forceSingle && q.Dialect == sqlgen.MySQL && r.Intn(3) == 0:
